@@ -562,7 +562,10 @@ func c16long(rep *vh.Report) {
 	// senders that appear 0, 2 and 5 s after the node started (the node's own housekeeping runs on its own clock) and
 	// keep sending heartbeats: per sender, no second batch of requests earlier than 30 s after the previous one
 	tr := fake.NewTransport("long")
-	node := &gomavlib.Node{Endpoints: []gomavlib.EndpointConf{gomavlib.EndpointCustom{ReadWriteCloser: tr}}, Dialect: testDialect, OutVersion: gomavlib.V2, OutSystemID: 9,
+	trBusy := fake.NewTransport("long-busy") // a link whose one frame keeps the application busy for four seconds
+	trNine := fake.NewTransport("long-nine") // the link of the sender first seen at 5 s
+	node := &gomavlib.Node{Endpoints: []gomavlib.EndpointConf{gomavlib.EndpointCustom{ReadWriteCloser: tr}, gomavlib.EndpointCustom{ReadWriteCloser: trBusy}, gomavlib.EndpointCustom{ReadWriteCloser: trNine}},
+		Dialect: testDialect, OutVersion: gomavlib.V2, OutSystemID: 9,
 		HeartbeatDisable: true, StreamRequestEnable: true}
 	if err := node.Initialize(); err != nil {
 		rep.HarnessError(err.Error())
@@ -570,9 +573,17 @@ func c16long(rep *vh.Report) {
 	}
 	var events int64
 	go func() {
+		slowOnce := false
 		for e := range node.Events() {
 			if _, ok := e.(*gomavlib.EventStreamRequested); ok {
 				atomic.AddInt64(&events, 1)
+			}
+			if fe, ok := e.(*gomavlib.EventFrame); ok && fe.SystemID() == 77 && !slowOnce {
+				// the application is busy for four seconds (it takes no event meanwhile) from just before the sender on the third
+				// link is first seen, at 5 s: the requests to that sender are on the wire at once all the same, and the next ones
+				// are due 30 s after THEM
+				slowOnce = true
+				time.Sleep(4 * time.Second)
 			}
 		}
 	}()
@@ -585,6 +596,10 @@ func c16long(rep *vh.Report) {
 		starts[10] = 0 // a sender that falls silent between 1 s and 45 s: renewed at 45 s, and then not again before 75 s
 	}
 	start := time.Now()
+	go func() {
+		time.Sleep(4800 * time.Millisecond)
+		trBusy.Feed(uidFrame(1, 0, 77, false, nil, 0))
+	}()
 	for time.Since(start) < total {
 		el := time.Since(start)
 		for sys, t0 := range starts {
@@ -592,7 +607,11 @@ func c16long(rep *vh.Report) {
 				continue
 			}
 			if el >= t0 {
-				tr.Feed(hbFrame(sys, 7, 3, 0))
+				if sys == 9 {
+					trNine.Feed(hbFrame(sys, 7, 3, 0))
+				} else {
+					tr.Feed(hbFrame(sys, 7, 3, 0))
+				}
 			}
 		}
 		time.Sleep(250 * time.Millisecond)
@@ -601,7 +620,7 @@ func c16long(rep *vh.Report) {
 		return
 	}
 	batches := map[byte][]time.Duration{} // per target system: time of every request
-	for _, w := range tr.Writes() {
+	for _, w := range append(tr.Writes(), trNine.Writes()...) {
 		f, _, st := ref.ParseAt(w.Data, 0)
 		if st != ref.ParseOK || f.MsgID != 66 || len(f.Payload) < 3 {
 			continue
